@@ -7,14 +7,15 @@ From hagall.proofs Require Import Relay Session Local Trans WF Mono Reach PC04.
 
 (* regenerated from handleMessage on every run: the dispatch switch covers exactly the 18 core request types
    (numbers as on the wire), each with its own handler; module requests (101, 201, 300-305) are offered to the
-   modules afterwards, for joined connections only *)
+   modules afterwards, for joined connections only.  The table is emitted sorted by type number (the order of the
+   cases of a switch over distinct constants is irrelevant); a default branch that delegates to another switch is followed *)
 Theorem C04_dispatch_table : Gen.dispatch_table = [
-  (38, "HandlePing"); (39, "HandlePingResponse"); (42, "HandleSignedLatency"); (3, "HandleParticipantJoin");
-  (8, "HandleEntityAdd"); (11, "HandleEntityDelete"); (14, "HandleEntityUpdatePose"); (16, "HandleCustomMessage");
-  (18, "HandleEntityComponentTypeAdd"); (20, "HandleEntityComponentGetName"); (22, "HandleEntityComponentGetID");
-  (24, "HandleEntityComponentAdd"); (27, "HandleEntityComponentDelete"); (32, "HandleEntityComponentList");
-  (30, "HandleEntityComponentUpdate"); (34, "HandleEntityComponentSubscribe"); (36, "HandleEntityComponentUnsubscribe");
-  (40, "HandleReceipt")]%string.
+  (3, "HandleParticipantJoin"); (8, "HandleEntityAdd"); (11, "HandleEntityDelete"); (14, "HandleEntityUpdatePose");
+  (16, "HandleCustomMessage"); (18, "HandleEntityComponentTypeAdd"); (20, "HandleEntityComponentGetName");
+  (22, "HandleEntityComponentGetID"); (24, "HandleEntityComponentAdd"); (27, "HandleEntityComponentDelete");
+  (30, "HandleEntityComponentUpdate"); (32, "HandleEntityComponentList"); (34, "HandleEntityComponentSubscribe");
+  (36, "HandleEntityComponentUnsubscribe"); (38, "HandlePing"); (39, "HandlePingResponse"); (40, "HandleReceipt");
+  (42, "HandleSignedLatency")]%string.
 Proof. reflexivity. Qed.
 
 (* in every reachable state a member's session-scoped request is handled inside its own, well-formed session *)
